@@ -1,0 +1,84 @@
+//go:build verif
+
+// Contracts for package backup (comment-only; compiled only with the build tag "verif",
+// read by /verif/engine). Property C07 (checksum gate of Restore).
+
+package backup
+
+//@ import os "os"
+//@ import io "io"
+//@ import filepath "path/filepath"
+//@ import md5 "crypto/md5"
+//@ import hash "hash"
+//@ import hex "encoding/hex"
+//@ import json "encoding/json"
+//@ import bufio "bufio"
+//@ import context "context"
+//@ import regattapb "github.com/jamf/regatta/regattapb"
+
+// A file is its whole content (ghost `whole`) and the part not yet read (`rest`, see io.spec); a hash
+// is the stream written into it (sdata/slen) - Sum is the MD5 of that stream, EncodeToString its hex.
+//@ uninterp func md5b(b Bytes) Bytes
+//@ uninterp func hexS(b Bytes) string
+//@ func md5.New
+//@   assumed
+//@   ensures result != nil && fresh(result)
+//@   modifies nothing
+//@ iface hash.Hash.Reset
+//@   assumed
+//@   params h
+//@   ensures h.slen == 0
+//@   modifies h.slen, h.sdata
+//@ iface hash.Hash.Sum
+//@   assumed
+//@   params h, b
+//@   ensures len(b) == 0 ==> bytesOf(result) == md5b(seqBytes(h.sdata, 0, h.slen))
+//@   modifies nothing
+//@ func hex.EncodeToString
+//@   assumed
+//@   ensures result == hexS(bytesOf(src))
+//@   modifies nothing
+//@ func json.(*Decoder).Decode<*backup.Manifest>
+//@   assumed
+//@   params dec, v
+//@   modifies fields(asType(v, *backup.Manifest))
+//@ func regattapb.NewMaintenanceClient
+//@   assumed
+//@   ensures result != nil
+//@   modifies nothing
+//@ iface regattapb.MaintenanceClient.Restore
+//@   assumed
+//@   results stream, err
+//@   ensures err == nil ==> stream != nil
+//@   modifies nothing
+//@ iface regattapb.Maintenance_RestoreClient.Send
+//@   assumed
+//@   modifies nothing
+//@ iface regattapb.Maintenance_RestoreClient.CloseAndRecv
+//@   assumed
+//@   modifies nothing
+//@ iface backup.Logger.Info
+//@   assumed
+//@   modifies nothing
+//@ iface backup.Logger.Infof
+//@   assumed
+//@   modifies nothing
+//@ func (*Backup).ensureDefaults
+//@   assumed
+//@   requires b != nil
+//@   ensures b.Log != nil
+//@   modifies b.Log, b.Timeout, b.clock
+//@ func checkDir
+//@   assumed
+//@   modifies nothing
+//@ func (*Backup).Restore$1
+//@   modifies nothing
+
+// Restore: a table's upload stream is opened only after the MD5 of the whole table file has been
+// computed and found equal to the manifest entry - a file whose checksum does not match is refused
+// before anything is sent.
+//@ func (*Backup).Restore
+//@   requires b != nil
+//@   before regattapb.MaintenanceClient.Restore assert [C07.md5] hexS(md5b(tf.whole)) == table.MD5
+//@   modifies b.Log, b.Timeout, b.clock
+//@   loop 0 invariant hash != nil && sc != nil && b.Log != nil && -1 <= rangeindex && rangeindex < len(manifest.Tables)
